@@ -14,6 +14,10 @@ from dsim.canon import Canon
 
 SIZE_MEASURES = 6
 
+# calls that need nothing but the formula itself (can be applied to a derived formula)
+DERIVABLE = ("simplify", "free_vars", "atoms", "is_qf", "theory", "logic", "types", "size", "serialize",
+             "nnf", "cnf", "prenex", "aig", "get_type")
+
 # calls whose result may contain freshly named symbols
 FRESH_CALLS = ("cnf", "prenex", "fresh", "ackermann")
 # calls that return a formula and must return the very same object when repeated
@@ -28,10 +32,28 @@ def gen_call(tape, pool_size, term_of, ctx_symbols, richgen, ctx):
              (1, "logic"), (1, "types"), (3, "size"), (2, "serialize"), (2, "to_smtlib"), (1, "nnf"),
              (1, "cnf"), (1, "prenex"), (1, "aig"), (1, "get_type"), (2, "build"), (1, "fresh"),
              (1, "model_value"), (1, "parse_smtlib"), (1, "parse_hr"), (1, "qelim")]
+    kinds = kinds + [(2, "substitute_shared")]
     k = tape.weighted(kinds, "call.kind")
     i = tape.draw(pool_size, "call.formula")
     spec = {"call": k, "i": i}
     t = term_of(i)
+    if k in DERIVABLE and tape.chance(1, 4, "call.derived"):
+        # apply the call to the formula returned by the most recent earlier call that
+        # returned one (a simplification / substitution / normal form of some pool formula)
+        spec["derived"] = True
+    if k == "substitute_shared":
+        # the client keeps ONE dict object and updates it in place between calls
+        syms = [x for x in rg.subterms(t) if x[0] == "sym" and not bp.is_fun(x[2]) and not bp.is_array(x[2])]
+        pairs = []
+        for _ in range(tape.rint(1, 2, "shared.n")):
+            if not syms:
+                break
+            key = tape.choice(syms, "shared.key")
+            try:
+                pairs.append([key, rg.gen(tape, key[2], 1, ctx)])
+            except ValueError:
+                pass
+        spec["update"] = pairs
     if k == "substitute":
         subs = rg.subterms(t)
         pairs = []
@@ -92,6 +114,11 @@ def perform(env, spec, f, term, user_symbols):
             from pysmt.substituter import MSSubstituter
             return MSSubstituter(env).substitute(f, m)
         return f.substitute(m)
+    if k == "substitute_shared":
+        # spec["_dict"] is supplied by the caller: the client's long-lived dict (aged
+        # environment) or a brand-new dict with the same content (reference environment)
+        d = spec["_dict"]
+        return f.substitute(d)
     if k == "free_vars":
         return f.get_free_variables()
     if k == "atoms":
